@@ -154,6 +154,7 @@ package server
 //@ func recordAuthFailure
 //@   strict
 //@   requires mu != nil && trackers != nil && !held(mu)
+//@   modifies mapof(trackers), allfields(authFailureTracker.failures), allfields(authFailureTracker.lastFailure), allfields(authFailureTracker.lockedUntil)
 
 //@ func BasicAuthMiddlewareWithConfig
 //@   modifies nothing
